@@ -14,6 +14,9 @@ inlined at the call site) the shape is the sequence, in source order, of
   loop[ ... ]        a for/while/range-for body
   unknown s          anything the translator does not understand (fails closed: never WellLocked)
 
+and the shape of the lock wrapper itself (lock.hpp): what cappuccino::mutex<thread_safe::yes>::lock()/unlock() do to the
+wrapped member, the wrapped member's type, and the declared type of m_lock in the ten classes.
+
 Usage: lockshape.py [--repo /repo] [--out FILE] [--summary]
 """
 import hashlib
@@ -286,6 +289,76 @@ class Walker:
             self.visit(c, out, parents + [n])
 
 
+def wrapper_shape(docs):
+    """cappuccino::mutex<thread_safe::yes>: what lock() and unlock() do to the underlying mutex.
+    Returns dict(lock=[codes], unlock=[codes], underlying=<type of the wrapped member>); codes: 1 = a call
+    of lock() on the wrapped member, 2 = unlock() on it, 0 = anything else that is not plain structure."""
+    found = None
+
+    def find(n):
+        nonlocal found
+        if n.get("kind") == "ClassTemplateSpecializationDecl" and n.get("name") == "mutex":
+            args = [a for a in inner(n) if a.get("kind") == "TemplateArgument"]
+            if args and args[0].get("value") == 1 and any(c.get("kind") == "CXXMethodDecl" for c in inner(n)):
+                found = n
+        for c in inner(n):
+            find(c)
+    for d in docs:
+        find(d)
+    if found is None:
+        return {"lock": [0], "unlock": [0], "underlying": "?"}
+    fields = {c["name"]: c.get("type", {}).get("qualType", "") for c in inner(found) if c.get("kind") == "FieldDecl"}
+
+    def body_codes(m):
+        out = []
+
+        def visit(n):
+            k = n.get("kind")
+            if k in ("CXXMemberCallExpr",):
+                kids = inner(n)
+                callee = strip_casts(kids[0]) if kids else {}
+                base = strip_casts(inner(callee)[0]) if callee.get("kind") == "MemberExpr" and inner(callee) else {}
+                if (callee.get("kind") == "MemberExpr" and base.get("kind") == "MemberExpr" and base.get("name") in fields
+                        and inner(base) and is_this(inner(base)[0]) and len(kids) == 1):
+                    out.append({"lock": 1, "unlock": 2}.get(callee.get("name"), 0))
+                else:
+                    out.append(0)
+                return
+            if k == "IfStmt":
+                kids = inner(n)
+                if n.get("isConstexpr"):
+                    for c in kids[1:]:      # the condition is a constant; discarded branches are absent
+                        visit(c)
+                else:
+                    out.append(0)
+                return
+            if k in LOOPS or k in ("CallExpr", "CXXOperatorCallExpr", "ReturnStmt", "GotoStmt", "CXXThrowExpr", "LambdaExpr",
+                                   "BinaryOperator", "CompoundAssignOperator", "UnaryOperator", "CXXTryStmt", "DeclStmt"):
+                out.append(0)
+                return
+            for c in inner(n):
+                visit(c)
+        for c in inner(m):
+            if c.get("kind") == "CompoundStmt":
+                visit(c)
+        return out
+    res = {"underlying": ",".join(sorted(set(fields.values()))) or "?"}
+    for name in ("lock", "unlock"):
+        ms = [c for c in inner(found) if c.get("kind") == "CXXMethodDecl" and c.get("name") == name]
+        res[name] = body_codes(ms[0]) if len(ms) == 1 else [0]
+    return res
+
+
+def lock_fields(docs):
+    """declared type of m_lock in each of the ten classes"""
+    out = {}
+    for d in docs:
+        if d.get("kind") == "ClassTemplateSpecializationDecl" and d.get("name") in CLASSES and inner(d):
+            ci = ClassInfo(d)
+            out[ci.name] = ci.fields.get("m_lock", "?")
+    return out
+
+
 def sig_of(m):
     t = m.get("type", {}).get("qualType", "")
     return t
@@ -349,7 +422,7 @@ def dedup(toks):
     return out
 
 
-def lean_source(table, repo_hash):
+def lean_source(table, repo_hash, wrapper=None, lockfields=None):
     comps = []
 
     def comp_id(name):
@@ -370,6 +443,16 @@ def lean_source(table, repo_hash):
     lines.append(",\n".join(rows))
     lines.append("]")
     lines.append("")
+    wrapper = wrapper or {"lock": [0], "unlock": [0], "underlying": "?"}
+    lockfields = lockfields or {}
+    lines += ["/-- cappuccino::mutex<thread_safe::yes> (lock.hpp): what `lock()` / `unlock()` do, in order: 1 = `lock()` on the wrapped",
+              "member, 2 = `unlock()` on it, 0 = anything else; wrapped member type: %s -/" % wrapper["underlying"],
+              "def wrapperLock : List Nat := %s" % wrapper["lock"],
+              "def wrapperUnlock : List Nat := %s" % wrapper["unlock"],
+              "def wrapperUnderlyingIsStdMutex : Bool := %s" % ("true" if wrapper["underlying"] == "std::mutex" else "false"),
+              "/-- every one of the ten classes declares `m_lock` as a `cappuccino::mutex<...>`: %s -/" % sorted(set(lockfields.values())),
+              "def lockFieldsAreWrapper : Bool := %s" % ("true" if len(lockfields) == len(CLASSES) and all(v.startswith("mutex<") for v in lockfields.values()) else "false"),
+              ""]
     lines.append("end Verif.Conc.Generated")
     return "\n".join(lines) + "\n"
 
@@ -388,10 +471,11 @@ def main():
     for base, dirs, files in sorted(os.walk(os.path.join(repo, "inc"))):
         for f in sorted(files):
             h.update(open(os.path.join(base, f), "rb").read())
-    src = lean_source(table, h.hexdigest()[:16])
+    src = lean_source(table, h.hexdigest()[:16], wrapper_shape(docs), lock_fields(docs))
     if "--summary" in args:
         for cls, name, toks in table:
             print("%-12s %-24s %s" % (cls, name, fmt_text(dedup(toks))))
+        print("wrapper      %s" % wrapper_shape(docs))
         return 0
     os.makedirs(os.path.dirname(out), exist_ok=True)
     old = open(out).read() if os.path.exists(out) else None
